@@ -4,11 +4,13 @@ import Comet.Driver.PQ
 import Comet.Driver.Meta
 import Comet.Driver.HNSW
 import Comet.Driver.Dist
+import Comet.Driver.Train
 import Comet.Driver.Atomic
 import Comet.Driver.BM25
 import Comet.Driver.HSearch
 import Comet.Driver.Vec5
 import Comet.Driver.Conc
+import Comet.Driver.Store
 namespace Comet.Driver
 
 def handlers : List Handler := [
@@ -22,7 +24,9 @@ def handlers : List Handler := [
   BM25Stream.handler,
   AtomicStream.handler,
   FlatStream.handler,
-  DistStream.handler
+  DistStream.handler,
+  TrainStream.handler,
+  StoreStream.handlerRestart, StoreStream.handlerStore, StoreStream.handlerCrash
 ]
 
 end Comet.Driver
